@@ -150,3 +150,63 @@ Proof.
     exists (o :: pre), o', post, s2, F2, acq2. subst r. split; [reflexivity|]. simpl. rewrite Hpre, Hstep. auto.
   - exists [], o, r, s, F, acq. auto.
 Qed.
+
+(* ---- the statements exported by Props/C12.v ------------------------------------------------------------ *)
+Lemma heap_refines_forest_pf : forall caching s F o,
+  Rep caching s F -> pre_b caching s F o = true ->
+  exists s' ret, step caching s o = Ok (s', ret) /\ Rep caching s' (aeffect s F o).
+Proof.
+  intros caching s F o HR Hpre.
+  assert (HA : AcqInv (mkSt (heap s) (pool s) (next_id s) (next_addr s)) []) by
+    (split; [constructor|split]; [intros x Hx; inversion Hx|intros a _ Hx; inversion Hx]).
+  destruct s. destruct (step_preserves caching _ F [] o HR HA Hpre) as (s' & ret & H1 & H2 & _). eauto.
+Qed.
+
+Lemma reachable_rep_pf : forall caching s F acq, reachable caching s F acq -> Rep caching s F.
+Proof. intros caching s F acq H. exact (proj1 (reachable_inv caching s F acq H)). Qed.
+
+Lemma abs_reads_forest_pf : forall caching s F acq t,
+  reachable caching s F acq -> t ∈ F -> abs s (root t) = Some t.
+Proof. intros caching s F acq t H. apply (abs_rep caching). exact (proj1 (reachable_inv _ _ _ _ H)). Qed.
+
+Lemma pool_disjoint_nodup_pf : forall caching s F acq,
+  reachable caching s F acq ->
+  NoDup (pool s) /\
+  (forall a, a ∈ pool s -> a ∉ addrs_f F) /\
+  (forall a x b, a ∈ addrs_f F -> heap s !! a = Some x ->
+     (n_parent x = Some b \/ n_first x = Some b \/ n_last x = Some b \/ n_prev x = Some b \/ n_next x = Some b) ->
+     b ∈ addrs_f F /\ b ∉ pool s).
+Proof.
+  intros caching s F acq H. destruct (reachable_inv _ _ _ _ H) as [HR _].
+  pose proof (R_nodup _ _ _ HR) as Hnd. apply NoDup_app in Hnd as (H1 & H2 & H3).
+  split; [exact H3|split].
+  - intros a Ha HaF. exact (H2 a HaF Ha).
+  - intros a x b Ha Hx Hb.
+    destruct (rep_links_closed _ _ _ HR a x Ha Hx) as (L1 & L2 & L3 & L4 & L5).
+    assert (HbF : b ∈ addrs_f F).
+    { destruct Hb as [E|[E|[E|[E|E]]]]; rewrite E in *; simpl in *; assumption. }
+    split; [exact HbF|exact (H2 b HbF)].
+Qed.
+
+Lemma live_forest_nodup_pf : forall caching s F acq,
+  reachable caching s F acq -> NoDup (addrs_f F).
+Proof.
+  intros caching s F acq H. destruct (reachable_inv _ _ _ _ H) as [HR _].
+  pose proof (R_nodup _ _ _ HR) as Hnd. apply NoDup_app in Hnd as (H1 & _). exact H1.
+Qed.
+
+Lemma fresh_blank_pf : forall caching s F acq c ty data fs s' a,
+  reachable caching s F acq ->
+  create caching s c ty data fs = Ok (s', a) ->
+  exists id, heap s' !! a = Some (mkNode id None None None None None ty data fs).
+Proof.
+  intros caching s F acq c ty data fs s' a H. destruct (reachable_inv _ _ _ _ H) as [HR _].
+  apply create_blank. intros b Hb. apply (R_blank _ _ _ HR). apply elem_of_list_In. exact Hb.
+Qed.
+
+Lemma ids_unique_pf : forall caching s F acq, reachable caching s F acq -> NoDup acq.
+Proof. intros caching s F acq H. destruct (reachable_inv _ _ _ _ H) as [_ [HA _]]. exact HA. Qed.
+
+Lemma held_ids_distinct_pf : forall caching s F acq,
+  reachable caching s F acq -> NoDup (map (id_of (heap s)) (addrs_f F ++ pool s)).
+Proof. intros caching s F acq H. destruct (reachable_inv _ _ _ _ H) as [HR _]. exact (R_ids _ _ _ HR). Qed.
